@@ -309,14 +309,14 @@ def main():
                                'batch trace validation of Trace_*.tla against recorded executions of /repo'},
             {'name': 'apalache', 'path': '/opt/veriftools/apalache', 'serves_properties': ['C09'],
              'kind_free_text': 'Apalache 0.58: inductive invariant of the abstract budget machine (spec/BudgetInd.tla), thorough tier of C09'},
-            {'name': 'extras', 'path': 'bin/check X01..X05', 'serves_properties': [],
+            {'name': 'extras', 'path': 'bin/check X01..X06', 'serves_properties': [],
              'kind_free_text': 'specification coverage beyond the listed properties, same technique (DESIGN.md 12): X01 command-line '
                                'driver (BareCli), X02 regex functions (BareRegex), X03 documentation tool (BareDoc), X04 exact lint rule set '
-                               '(BareLintExact), X05 statement recognition (BareStatement); evidence under evidence/extra/'},
+                               '(BareLintExact), X05 statement recognition (BareStatement), X06 exact URL / regex escapes (Trace_Encode); evidence under evidence/extra/'},
         ],
         'checks': checks,
         'not_applicable': [{'property_id': p, 'reason': NOT_YET} for p in ALL if p not in CHECKS],
-        'notes': 'One TLA+ specification of BareScript under /verif/spec; see DESIGN.md (12: coverage beyond the listed properties, bin/check X01..X05). Repairs of genuine defects '
+        'notes': 'One TLA+ specification of BareScript under /verif/spec; see DESIGN.md (12: coverage beyond the listed properties, bin/check X01..X06). Repairs of genuine defects '
                  'are "fix:" commits in /repo listed in KNOWN_FINDINGS.txt.',
     }
     with open(os.path.join(VERIF, 'MANIFEST.json'), 'w') as fh:
